@@ -451,4 +451,83 @@ theorem wrap_width_text (cw : Char → Nat) (content : Str) (hard : Nat) (hp : S
 
 example : wrap (fun _ => 1) "aaa bbb ccc".toList 7 = "aaa bbb\nccc".toList := by decide
 
+/-! #### 9. styled text that fits is left alone -/
+
+theorem LWwrap_fits (cw : Char → Nat) (st : LW) (words : List Str)
+    (h : st.lineWidth + (words.map (wordCost cw)).sum ≤ st.hard) :
+    (st.wrap cw words).2 = words ∧ (st.wrap cw words).1.hard = st.hard ∧
+    (st.wrap cw words).1.lineWidth = st.lineWidth + (words.map (wordCost cw)).sum := by
+  unfold LW.wrap
+  cases hc : st.carry with
+  | some c =>
+    simp only
+    rw [wrapLoop_fits_any cw words st true [] h]
+    simp
+  | none =>
+    cases words with
+    | nil => simp [wrapLoop]
+    | cons w ws =>
+      simp only
+      rw [wrapLoop_fits_any cw (w :: ws) _ true [] (by simpa using h)]
+      simp
+
+def linesCost (cw : Char → Nat) (lines : List Str) : Nat := (lines.map (lineCost cw)).sum
+
+theorem styledLines_fits (cw : Char → Nat) : ∀ (lines : List Str) (st : LW) (b : Bool),
+    st.lineWidth + linesCost cw lines ≤ st.hard →
+    (styledLines cw st b lines).2.flatten = lines.flatten ∧ (styledLines cw st b lines).1.1.hard = st.hard ∧
+    (styledLines cw st b lines).1.1.lineWidth ≤ st.lineWidth + linesCost cw lines
+  | [], st, b, _ => by simp [styledLines, linesCost]
+  | line :: ls, st, b, h => by
+    have hcons : linesCost cw (line :: ls) = lineCost cw line + linesCost cw ls := by simp [linesCost]
+    have hlc : ((findWords line).map (wordCost cw)).sum = lineCost cw line := rfl
+    rw [hcons] at h ⊢
+    unfold styledLines
+    have h0 : (if b = true then st.reset else st).lineWidth ≤ st.lineWidth ∧ (if b = true then st.reset else st).hard = st.hard := by
+      split <;> simp [LW.reset]
+    obtain ⟨w1, w2, w3⟩ := LWwrap_fits cw (if b = true then st.reset else st) (findWords line)
+      (by rw [hlc]; omega)
+    rw [hlc] at w3
+    have ih := styledLines_fits cw ls ((if b = true then st.reset else st).wrap cw (findWords line)).1 (endsNl line)
+      (by rw [w2, w3]; omega)
+    obtain ⟨i1, i2, i3⟩ := ih
+    simp only [List.flatten_cons]
+    refine ⟨?_, ?_, ?_⟩
+    · simp only [List.flatten_append, i1, w1, findWords_flatten]
+    · rw [i2, w2]; exact h0.2
+    · rw [w3] at i3
+      omega
+
+def segsCost (cw : Char → Nat) : List Seg → Nat
+  | [] => 0
+  | .esc _ :: r => segsCost cw r
+  | .text t :: r => linesCost cw (splitInclusive t) + segsCost cw r
+
+theorem styledSegs_fits (cw : Char → Nat) : ∀ (segs : List Seg) (st : LW) (b : Bool),
+    st.lineWidth + segsCost cw segs ≤ st.hard →
+    flattenSegs (styledSegs cw st b segs) = flattenSegs segs
+  | [], _, _, _ => rfl
+  | .esc e :: r, st, b, h => by
+    simp only [styledSegs, flattenSegs, List.map_cons, List.flatten_cons]
+    have := styledSegs_fits cw r st b (by simpa [segsCost] using h)
+    simp only [flattenSegs] at this
+    rw [this]
+  | .text t :: r, st, b, h => by
+    simp only [segsCost] at h
+    obtain ⟨s1, s2, s3⟩ := styledLines_fits cw (splitInclusive t) st b (by omega)
+    have := styledSegs_fits cw r (styledLines cw st b (splitInclusive t)).1.1 (styledLines cw st b (splitInclusive t)).1.2
+      (by rw [s2]; omega)
+    simp only [styledSegs, flattenSegs, List.map_cons, List.flatten_cons, Seg.chars] at this ⊢
+    rw [this, s1, splitInclusive_flatten]
+
+/-- **`StyledStr::wrap` leaves styled text that fits alone**: when the wrapper's own measure of all the text between the
+escape sequences fits the width, the result is the input - text and escape sequences, byte for byte - up to the final
+`trim_end` the function always applies -/
+theorem styled_fits_identity (cw : Char → Nat) (segs : List Seg) (hard : Nat) (h : segsCost cw segs ≤ hard) :
+    styledWrap cw segs hard = trimEnd (flattenSegs segs) := by
+  unfold styledWrap
+  rw [styledSegs_fits cw segs (LW.new hard) false (by simpa [LW.new] using h)]
+
+example : segsCost (fun _ => 1) [.text "aa bb\n".toList, .esc "\x1b[1m".toList, .text "cc dd".toList] = 11 := by decide
+
 end Clap.C20
